@@ -698,6 +698,21 @@ impl Adapter for Ipa {
                 p.r_vec[n - 1] = rg(rng);
                 true
             }
+            "replace:l_last" => {
+                if p.l_vec.len() < 2 {
+                    return false;
+                }
+                let n = p.l_vec.len();
+                p.l_vec[n - 1] = rg(rng);
+                true
+            }
+            "replace:r0" => {
+                if p.r_vec.len() < 2 {
+                    return false;
+                }
+                p.r_vec[0] = rg(rng);
+                true
+            }
             "replace:final_comm_key" => {
                 p.final_comm_key = rg(rng);
                 true
